@@ -68,6 +68,9 @@ def oracles(rec):
         if cfg.get("straggler", -1) >= 0:
             bad("C09", "Wait did not return after its context was done while task %d was still running" % cfg["straggler"])
         return out
+    if rec.get("deps_mutated", -1) >= 0:
+        bad("C12", "the Dependencies slice the caller passed for job %d (deps %s) no longer holds the caller's values after Enqueue: the scheduler writes memory it does not own" % (
+            rec["deps_mutated"], jobs[rec["deps_mutated"]]["deps"]))
     if rec.get("hang"):
         bad("C06", "%d scheduler goroutine(s) still alive long after the call returned and all tasks ended" % rec.get("leaked_goroutines", 0))
     werr = rec["wait_err"]
@@ -217,6 +220,7 @@ def strip_ticks(lines):
     return [l for l in lines if not l.startswith("ACT LT")]
 
 
+@common.serialised("sched")
 def observe(seed, tier, extra_args=()):
     """Run (or fetch from the per-tree cache) the executions for this tier; returns the
     analysed summary: per-execution verdicts of the two replays and the oracle hits."""
@@ -229,9 +233,9 @@ def observe(seed, tier, extra_args=()):
     t0 = time.time()
     exe = common.go_build("schedrun")
     if tier == "quick":
-        plans = [["-count", "700", "-maxjobs", "24"]]
+        plans = [["-count", "700", "-maxjobs", "24", "-backlog", "1100"]]
     else:
-        plans = [["-count", "12000", "-maxjobs", "24"], ["-count", "3000", "-maxjobs", "80"], ["-count", "300", "-maxjobs", "400"]]
+        plans = [["-count", "12000", "-maxjobs", "24", "-backlog", "1100"], ["-count", "3000", "-maxjobs", "80"], ["-count", "300", "-maxjobs", "400", "-backlog", "5000"]]
     summary = {"executions": 0, "events": 0, "replay_full_ok": 0, "replay_core_ok": 0, "final": 0,
                "mismatch_full": [], "mismatch_core": [], "oracle_hits": {}, "hangs": 0, "gated": gated,
                "distribution": {"n": {}, "coe": {}, "shape": {}, "ret": {}, "faults": {}, "jobs_hist": {}},
@@ -240,6 +244,18 @@ def observe(seed, tier, extra_args=()):
     for pi, plan in enumerate(plans):
         rc, out, err = common.run([exe, "-seed", str(seed * 1000 + pi)] + plan + list(extra_args), timeout=6000)
         recs = [json.loads(l) for l in out.split("\n") if l.strip()]
+        # the harness stops after an execution that left goroutines behind (they would disturb the next
+        # ones); the remaining cases are run in fresh processes so that other failures are still looked for
+        restarts = 0
+        while restarts < (12 if tier == "quick" else 40):
+            m = re.search(r"stopping after case (\d+)", err or "")
+            if not m or int(m.group(1)) + 1 >= int(plan[1]):
+                break
+            restarts += 1
+            rc, out, err = common.run([exe, "-seed", str(seed * 1000 + pi)] + plan + list(extra_args) + ["-from", str(int(m.group(1)) + 1)], timeout=6000)
+            recs += [json.loads(l) for l in out.split("\n") if l.strip()]
+        if restarts:
+            summary["restarts_after_stuck_execution"] = summary.get("restarts_after_stuck_execution", 0) + restarts
         # a watchdog expiry without a stable all-blocked dump is slowness (machine under load), not a
         # hang: decide such an execution again with a much longer watchdog
         for k, r in enumerate(recs):
